@@ -52,7 +52,7 @@ META = {
             "receiver_return_is_resume is stated for call/cc in operand position (CALL) and receivers that do not invoke a "
             "continuation before returning (Trace); for call/cc in tail position (TCALL) capture and invocation theorems "
             "hold as stated but the normal-return comparison is one instruction off (the RET after the TCALL) and not "
-            "stated. Liveness of captured continuations across collections (T05.5) belongs to C03's marker theorems. ROUND 5: the bytecode verifier is value-typed (val | argc n | any) and WF-stack is re-proved for it (all 16 opcodes; continuation snapshots now also record that they resume at a non-prologue instruction and that typed cells hold values); every theorem above is unchanged in statement. NOT done: invoke_run_same_result_machine (the statement on concreteOps without the callee guard). What it needs beyond C04's tail_loop_sp_machine: LiveLaws for concreteLawsV (same proof as concreteLiveLaws) and the guard-invisibility bridge step_vops in BOTH directions along BOTH runs (the run after the invocation and the run from the constructed Resume state, which is not a Reaches-successor of an initial VmOk state), i.e. GoodI / CalleeOk / size hypotheses on the second run as well.",
+            "stated. Liveness of captured continuations across collections (T05.5) belongs to C03's marker theorems. ROUND 5: the bytecode verifier is value-typed (val | argc n | any) and WF-stack is re-proved for it (all 16 opcodes; continuation snapshots now also record that they resume at a non-prologue instruction and that typed cells hold values); every theorem above is unchanged in statement. (invoke_run_same_result_machine, the statement on concreteOps without the callee guard, was NOT done in round 5: see ROUND 6 below.)",
     "technique": "Lean 4 proof (capture/restore lemmas over an abstract heap, any later state; write-set and live-read lemmas per instruction over the WF-stack invariant; run-level congruence) + lock-step replay + scenario oracle with closed-form expectations",
 }
 MODULE = "Marwood.Proofs.C05"
@@ -93,6 +93,11 @@ THEOREMS = [
     "Marwood.Proofs.C05.invoke_run_same_result_concrete",
 ]
 
+
+# ROUND 6: the callee guard is a theorem (lib/props/procinv_util.py)
+import procinv_util as _pv
+THEOREMS = THEOREMS + [t for t in _pv.COMMON_THEOREMS if t not in THEOREMS] + _pv.FAILING_EXT + ['Marwood.Lemmas.Good.concreteLiveLawsV', 'Marwood.Lemmas.Good.step_vops_conv', 'Marwood.Lemmas.Good.GoodI.of_liveEq', 'Marwood.Lemmas.Good.PInv.of_liveEq', 'Marwood.Lemmas.Good.runN_live_congruence_machine', 'Marwood.Proofs.C05.invoke_run_continues_machine', 'Marwood.Proofs.C05.invoke_run_same_result_machine']
+META["note"] = META["note"] + _pv.NOTE + " C05 ON THE REAL MACHINE (the gap named at the end of the previous round is closed): invoke_run_continues_machine / invoke_run_same_result_machine state the property's first sentence for run_one over concreteOps (no callee guard, no value guards): after (k v) every further instruction, up to and including HALT, is - up to stale cells above sp - what the machine does from the CONSTRUCTED state Resume s0 v t.heap. Proof (Lemmas/ContResumeMachine.lean): LiveLaws for the value-typed laws (concreteLiveLawsV), step_vops and its converse step_vops_conv (on GoodI states whose callee passes the guard the guarded and the real instruction coincide, both directions), and the invariants are properties of the LIVE part of a state (GoodI.of_liveEq, PInv.of_liveEq, WFS.of_liveEq), so the second run - which does not start from a reachable state - is carried along the first in lock step (runN_live_congruence_machine); no VmOk-at-capture hypothesis is needed. Hypotheses: ExtLaws, ExtGood, ExtCodeLawsV, ExtProc; GoodI, WF-stack (value-typed verifier) and PInv of the invoking state t; SizeBounded from t; the shape of the invocation (callee = continuation (capturedCont s0), argc n >= 1 on top); and the capacity conditions hfit / FitOK (the stack never shrinks). Non-vacuity: the run-level congruence is instantiated on the demo state and a padded, unreachable copy of it (every hypothesis discharged); the hypotheses of the invoke theorems themselves are exhibited on the toy instance (CToy, generic theorem) only - no concrete-heap state with a continuation cell is constructed in Lean."
 
 def nontrivial(req, impl):
     if req.startswith("step"):
